@@ -94,7 +94,72 @@ class Engine:
             kw["frozen_fields"] = self.init_only_fields(f"{f.module}.{f.cls}")
         if "inline" not in kw:
             kw["inline"] = self.inline_policy
+        if "param_len" not in kw and f.cls and f.name.startswith("_") and not f.name.startswith("__"):
+            pl = self.param_lengths(qual)
+            if pl:
+                kw["param_len"] = pl
         return SymEval(self.ce, f, **kw).run()
+
+    def functions_reaching(self, qual: str) -> list:
+        """Functions in whose term evaluation the calls of `qual` appear: its direct callers, with every caller that is itself an inlined private
+        helper (a forwarding wrapper such as `return data + self._read_bytes(n)`) replaced by *its* callers."""
+        out, todo, seen = [], [qual], set()
+        while todo:
+            x = todo.pop()
+            for cs in self.res.callers_of(x):
+                c = cs.caller
+                if c in seen:
+                    continue
+                seen.add(c)
+                if self.is_inlined_helper(c):
+                    todo.append(c)
+                else:
+                    out.append(c)
+        return sorted(set(out))
+
+    def param_lengths(self, qual: str) -> dict:
+        """Exact byte length of the parameters of a private reader method when every call site in the package passes a byte string of the same
+        known length (constants and results of the read primitive with a constant request, concatenated): {param: length}."""
+        cache = self.__dict__.setdefault("_param_lengths", {})
+        if qual in cache:
+            return cache[qual]
+        cache[qual] = {}
+        f = self.repo.func(qual)
+        if not (f.cls and f"{f.module}.{f.cls}" == self.reader_cls):
+            return {}
+        try:
+            prim = self.repo.func(self.read_primitive).name
+        except AnalysisError:
+            return {}
+        from .symeval import is_const
+
+        def length(t):
+            if is_const(t) and isinstance(t[1], (bytes, bytearray)):
+                return len(t[1])
+            if t[0] == "call" and t[2] == ("attr", ("self",), prim) and len(t[3]) == 1 and is_const(t[3][0]) and isinstance(t[3][0][1], int):
+                return t[3][0][1]
+            if t[0] == "bin" and t[1] == "+":
+                a, b = length(t[2]), length(t[3])
+                return a + b if a is not None and b is not None else None
+            return None
+
+        seen: dict = {}
+        params = f.params[1:]
+        for g in self.repo.methods(f.module, f.cls):
+            if g.qualname == qual:
+                continue
+            try:
+                se = SymEval(self.ce, g, inline=self.inline_policy, frozen_fields=self.init_only_fields(f"{g.module}.{g.cls}")).run()
+            except Exception:  # noqa: BLE001
+                continue
+            for e in se.effects:
+                if e.kind == "call" and e.term[2] == ("attr", ("self",), f.name):
+                    for i, a in enumerate(e.term[3]):
+                        if i < len(params):
+                            seen.setdefault(params[i], []).append(length(a))
+        out = {p_: ls[0] for p_, ls in seen.items() if ls and all(x is not None and x == ls[0] for x in ls)}
+        cache[qual] = out
+        return out
 
     @cached_property
     def role_functions(self) -> set:
